@@ -207,6 +207,17 @@ def run_check(prop, tier, replay=None):
                                        "case": small, "original_case": strip(cases[i]), "impl_obs": r["obs"][i],
                                        "count": len(sfail)})
         violations.append((p, ""))
+    if sknown and not kfs and not sfail:
+        # failures inside an excused class, but known-findings.txt records no finding for this property: the class is a
+        # stale tolerance (e.g. left behind after a fix) and must not hide anything
+        i = sknown[0]
+        small = shrink(mod, cases[i], "spec_fail_known")
+        n_rep += 1
+        p = write_replay(prop, n_rep, {"property": prop, "kind": "spec-violation-on-implementation", "seed": seed,
+                                       "case": small, "original_case": strip(cases[i]), "impl_obs": r["obs"][i],
+                                       "count": len(sknown),
+                                       "note": "excused by a class in Corr without a `known:` line in known-findings.txt"})
+        violations.append((p, ""))
     for ev in extra_viol:
         n_rep += 1
         p = write_replay(prop, n_rep, dict(ev, property=prop, seed=seed))
